@@ -87,6 +87,14 @@ _p('C08',
    'recomputation of uend which precedes isend; the DONE arm waits/cancels all requests; serial and MPI siblings agree on stage graph, callbacks, swept levels, dispatch '
    'names and comparison operators.',
    ['deadlock freedom and equality of results under all interleavings (schedule exploration is another family)', 'completion timing of non-blocking operations'])
+_p('C15',
+   'ONLY the pairing and pipeline structure: (R1) the helper matrices after inlining of locals: orthonormal DFT matrix, J and J^-1 from the same weights, forward = F @ J^-1, backward = J @ conj(F), '
+   'alpha-circulant E, per-step factor from the same weights; (R2) step l is built with G_inv(l, n_steps, alpha), FFT_in_time/iFFT_in_time apply the forward/backward matrix for (n_steps, alpha); '
+   '(R3) it_ParaDiag runs Jacobians -> residual -> FFT(residual) -> local solves -> iFFT(increment) -> u += increment with CFG dominance between consecutive stages and one def-use chain of '
+   'residual/increment; (R4) apply_matrix and mat_vec are matrix-vector products with the right index coupling, accumulated in fresh storage and written back afterwards; (R5) QDiagonalization '
+   'diagonalises Q[1:,1:] @ G_inv and update_nodes applies S^-1, the node-wise solves with w[m] dt, S and G_inv in this order.',
+   ['that the transforms are inverse to each other and diagonalise the alpha-circulant matrix (matrix identities over n and alpha)', 'exactness of the diagonalisation sweeper for linear problems',
+    'agreement of a converged run with sequential collocation', 'conditioning for small alpha - all numeric: NOT decided by this check'])
 _p('C16',
    'All open() calls of fieldsIO use rb/ab/w+b, the single truncating open is in FieldsIO.initialize and is dominated by the ALLOW_OVERWRITE/isfile test that raises; '
    'addField appends time then field after asserting dtype and size; header dtype sequences and counts written by hInfos equal those read by readHeader for every '
